@@ -180,6 +180,12 @@ impl TypeInfoImpl {
 
                 let type_name = clean_type_string(&quote!(#ty).to_string());
                 let docs = self.generate_docs(&f.attrs);
+                // A field with `#[codec(encoded_as = "..")]` is encoded as that type, so that is
+                // the type to describe; the type name remains the declared one.
+                if let Some(mut encoded_as) = utils::maybe_encoded_as(f) {
+                    StaticLifetimesReplace.visit_type_mut(&mut encoded_as);
+                    ty = encoded_as;
+                }
                 let type_of_method = if utils::is_compact(f) {
                     quote!(compact)
                 } else {
